@@ -1,0 +1,150 @@
+//go:build verif
+// +build verif
+
+package leaves
+
+import (
+	"sort"
+	"time"
+
+	"gopkg.in/src-d/go-git.v4/plumbing"
+	"gopkg.in/src-d/hercules.v10/internal/burndown"
+	"gopkg.in/src-d/hercules.v10/internal/core"
+)
+
+// Verification hooks for property C07 (BurndownAnalysis.Merge / Fork).  Compiled only with the
+// "verif" build tag.  Nothing here changes the behaviour of the analysis: the functions build a
+// scenario with the same statements Consume() executes and read the state back.
+
+// VerifC07New returns an initialized BurndownAnalysis without a repository.
+func VerifC07New(people int, trackFiles bool) *BurndownAnalysis {
+	analyser := &BurndownAnalysis{
+		Granularity:  DefaultBurndownGranularity,
+		Sampling:     DefaultBurndownGranularity,
+		PeopleNumber: people,
+		TrackFiles:   trackFiles,
+		TickSize:     24 * time.Hour,
+	}
+	if err := analyser.Initialize(nil); err != nil {
+		panic(err)
+	}
+	return analyser
+}
+
+// VerifC07NewFile registers a new tracked file the way handleInsertion does.
+func (analyser *BurndownAnalysis) VerifC07NewFile(name string, author, tick, size int) *burndown.File {
+	file, err := analyser.newFile(plumbing.ZeroHash, name, author, tick, size)
+	if err != nil {
+		panic(err)
+	}
+	analyser.files[name] = file
+	return file
+}
+
+// VerifC07File returns the tracked file or nil.
+func (analyser *BurndownAnalysis) VerifC07File(name string) *burndown.File {
+	return analyser.files[name]
+}
+
+// VerifC07DropFile removes a tracked file the way handleDeletion does.
+func (analyser *BurndownAnalysis) VerifC07DropFile(name string) {
+	if file, exists := analyser.files[name]; exists {
+		file.Delete()
+		delete(analyser.files, name)
+	}
+}
+
+// VerifC07BeginMerge puts the analysis in the state Consume() establishes before it replays a merge commit.
+func (analyser *BurndownAnalysis) VerifC07BeginMerge(author int) {
+	analyser.tick = burndown.TreeMergeMark
+	analyser.mergedFiles = map[string]bool{}
+	analyser.mergedAuthor = author
+}
+
+// VerifC07FlagMerged records a file in mergedFiles the way the handle* functions do in merge mode.
+func (analyser *BurndownAnalysis) VerifC07FlagMerged(name string, val bool) {
+	analyser.mergedFiles[name] = val
+}
+
+// VerifC07SetTick is the last statement of Consume(): analyser.tick = tick.
+func (analyser *BurndownAnalysis) VerifC07SetTick(tick int) {
+	analyser.tick = tick
+}
+
+// VerifC07NewTick is what Consume() does first for a regular commit.
+func (analyser *BurndownAnalysis) VerifC07NewTick(tick int) {
+	analyser.tick = tick
+	analyser.onNewTick()
+}
+
+// VerifC07Pack exposes packPersonWithTick.
+func (analyser *BurndownAnalysis) VerifC07Pack(author, tick int) int {
+	return analyser.packPersonWithTick(author, tick)
+}
+
+// VerifC07MergeTick is the tick File.Merge is going to receive from Merge().
+func (analyser *BurndownAnalysis) VerifC07MergeTick() int {
+	return analyser.packPersonWithTick(analyser.mergedAuthor, analyser.tick)
+}
+
+// VerifC07State returns tick, mergedAuthor.
+func (analyser *BurndownAnalysis) VerifC07State() (int, int) {
+	return analyser.tick, analyser.mergedAuthor
+}
+
+// VerifC07Flatten returns the per-line values of every tracked file.
+func (analyser *BurndownAnalysis) VerifC07Flatten() map[string][]int {
+	result := map[string][]int{}
+	for name, file := range analyser.files {
+		if file == nil {
+			continue
+		}
+		result[name] = file.VerifFlatten()
+	}
+	return result
+}
+
+// VerifC07MergedFiles returns a copy of mergedFiles.
+func (analyser *BurndownAnalysis) VerifC07MergedFiles() map[string]bool {
+	result := map[string]bool{}
+	for name, val := range analyser.mergedFiles {
+		result[name] = val
+	}
+	return result
+}
+
+// VerifC07GlobalHistory returns the sparse global history as sorted (current, previous, lines) triples.
+func (analyser *BurndownAnalysis) VerifC07GlobalHistory() [][3]int64 {
+	var result [][3]int64
+	for cur, row := range analyser.globalHistory {
+		for prev, val := range row {
+			result = append(result, [3]int64{int64(cur), int64(prev), val})
+		}
+	}
+	sort.Slice(result, func(i, j int) bool {
+		if result[i][0] != result[j][0] {
+			return result[i][0] < result[j][0]
+		}
+		return result[i][1] < result[j][1]
+	})
+	return result
+}
+
+// VerifC07Fork calls Fork(n).
+func (analyser *BurndownAnalysis) VerifC07Fork(n int) []*BurndownAnalysis {
+	items := analyser.Fork(n)
+	result := make([]*BurndownAnalysis, len(items))
+	for i, item := range items {
+		result[i] = item.(*BurndownAnalysis)
+	}
+	return result
+}
+
+// VerifC07Merge calls Merge(branches).
+func (analyser *BurndownAnalysis) VerifC07Merge(branches []*BurndownAnalysis) {
+	items := make([]core.PipelineItem, len(branches))
+	for i, branch := range branches {
+		items[i] = branch
+	}
+	analyser.Merge(items)
+}
